@@ -4,6 +4,7 @@ import (
 	"go/ast"
 	"go/token"
 	"go/types"
+	"strings"
 
 	"golang.org/x/tools/go/cfg"
 )
@@ -160,6 +161,143 @@ func runC16(c *Ctx) {
 		})
 		c.Check(okQ && okSum, "C16-R1", "instantSeriesCount:sums the samples of an instant query for its argument", isc.Decl.Pos(), "Query(ctx, query); series += value", "instantSeriesCount no longer sums the result of an instant query for the given expression")
 	}
+	// ---- R3: structural clauses of the second half (who counts as a producer; which selectors are probed; cache lifetime) ----
+	c.Rule("C16-R3", "producer lookups are kind-aware; per-source fallback exemption; cached answers expire as stored", 5)
+	// (a) pointers to a providing entry are set only under a kind-specific, error-free, name-equality guard
+	pmC := parentMap(chk.Decl.Body)
+	nProd := 0
+	ast.Inspect(chk.Decl.Body, func(n ast.Node) bool {
+		as, ok := n.(*ast.AssignStmt)
+		if !ok || len(as.Lhs) != 1 || len(as.Rhs) != 1 {
+			return true
+		}
+		u, ok := as.Rhs[0].(*ast.UnaryExpr)
+		if !ok || u.Op != token.AND || typeQName(info.TypeOf(u.X)) != "internal/discovery.Entry" {
+			return true
+		}
+		nProd++
+		guards := lexicalGuards(pmC, as, chk.Decl.Body)
+		kind := ""
+		nameEq, errFree := false, false
+		for _, g := range guards {
+			if x, isNil, ok := nilAtom(info, g); ok {
+				if !isNil && fieldSel(info, x, "internal/parser.Rule", "RecordingRule") {
+					kind = "recording"
+				}
+				if !isNil && fieldSel(info, x, "internal/parser.Rule", "AlertingRule") {
+					kind = "alerting"
+				}
+				if isNil && fieldSel(info, x, "internal/parser.ParseError", "Err") {
+					errFree = true
+				}
+			}
+			if be, ok := ast.Unparen(g.E).(*ast.BinaryExpr); ok && g.Truth && be.Op == token.EQL {
+				ls := exprStr(be.X)
+				if strings.HasSuffix(ls, ".RecordingRule.Record.Value") || strings.HasSuffix(ls, ".AlertingRule.Alert.Value") {
+					nameEq = true
+				}
+			}
+		}
+		c.Check(kind != "" && nameEq && errFree, "C16-R3", "Check:"+exprStr(as.Lhs[0])+" names a producing rule of the right kind", as.Pos(), kind+" rule, error-free, name equality",
+			"a rule is accepted as the producer of a metric without requiring the right rule kind (recording rule for a metric, alerting rule for ALERTS), an error-free rule and name equality: e.g. an alert named like a metric hides a never-present series")
+		return true
+	})
+	c.Check(nProd >= 2, "C16-R3", "Check:producer lookups enumerated", chk.Decl.Pos(), itoa(nProd), "fewer than two producer lookups")
+	// (b) which join selectors are probed is decided per source
+	if gs := c.MustFunc("C16-R3", "internal/checks.getNonFallbackSelectors"); gs != nil {
+		ginfo := gs.Pkg.TypesInfo
+		pmG := parentMap(gs.Decl.Body)
+		var outer *ast.RangeStmt
+		ast.Inspect(gs.Decl.Body, func(n ast.Node) bool {
+			if rs, ok := n.(*ast.RangeStmt); ok && outer == nil {
+				outer = rs
+			}
+			return true
+		})
+		okAll, nApp := outer != nil, 0
+		if outer != nil {
+			lv, _ := outer.Value.(*ast.Ident)
+			ast.Inspect(outer.Body, func(n ast.Node) bool {
+				as, ok := n.(*ast.AssignStmt)
+				if !ok || len(as.Rhs) != 1 {
+					return true
+				}
+				call, ok := as.Rhs[0].(*ast.CallExpr)
+				if !ok || exprStr(call.Fun) != "append" {
+					return true
+				}
+				// appends of join selectors: argument mentions .Src.Selector
+				if !strings.Contains(exprStr(call), ".Src.Selector") {
+					return true
+				}
+				inJoins := false
+				for cur := pmG[as]; cur != nil && cur != ast.Node(outer); cur = pmG[cur] {
+					if rs, ok := cur.(*ast.RangeStmt); ok && lv != nil && exprStr(rs.X) == lv.Name+".Joins" {
+						inJoins = true
+					}
+				}
+				if !inJoins {
+					return true
+				}
+				nApp++
+				dep := false
+				for _, g := range lexicalGuards(pmG, as, outer) {
+					ast.Inspect(g.E, func(m ast.Node) bool {
+						if id, ok := m.(*ast.Ident); ok && lv != nil && ginfo.Uses[id] == ginfo.Defs[lv] {
+							if call, isCall := pmG[pmG[id]].(*ast.CallExpr); isCall || true {
+								_ = call
+								dep = true
+							}
+						}
+						return true
+					})
+				}
+				// the guard must be about the source's joins, not only the join's own selector nil test
+				perSource := false
+				for _, g := range lexicalGuards(pmG, as, outer) {
+					if strings.Contains(exprStr(g.E), "joinHasFallback(") && strings.Contains(exprStr(g.E), lv.Name+".") {
+						perSource = true
+					}
+				}
+				if !dep || !perSource {
+					okAll = false
+				}
+				return true
+			})
+		}
+		c.Check(okAll && nApp >= 1, "C16-R3", "getNonFallbackSelectors:join fallback exemption decided per source", gs.Decl.Pos(), "guard depends on the iterated source's joins", "whether the join selectors of a source are probed no longer depends on that source's own joins: a fallback in one `or` branch exempts the joins of every other branch")
+	}
+	// (c) a cached answer's expiry is fixed when it is stored
+	cacheExpiryWriters(c, "C16-R3")
+
 	// ---- R2 ----
 	apiErrorDiscipline(c, "C16-R2", func(file string) bool { return file == "promql_series.go" })
+}
+
+
+// cacheExpiryWriters: cacheEntry.expiresAt is written only by queryCache.set
+// (a lookup must not extend the lifetime of an answer).
+func cacheExpiryWriters(c *Ctx, rule string) {
+	p := c.P
+	n := 0
+	for _, fi := range p.AllFuncs() {
+		if fi.Decl.Body == nil || p.IsTestFile(fi.Decl.Pos()) {
+			continue
+		}
+		info := fi.Pkg.TypesInfo
+		ast.Inspect(fi.Decl.Body, func(nd ast.Node) bool {
+			as, ok := nd.(*ast.AssignStmt)
+			if !ok {
+				return true
+			}
+			for _, l := range as.Lhs {
+				if sel, ok := ast.Unparen(l).(*ast.SelectorExpr); ok && sel.Sel.Name == "expiresAt" && fieldOwner(info, sel) == "internal/promapi.cacheEntry" {
+					n++
+					c.Check(fi.Name == "internal/promapi.queryCache.set", rule, "store cacheEntry.expiresAt in "+fi.Name, as.Pos(), "expiry fixed at store time", "the expiry of a cached answer is rewritten in "+fi.Name+": answers can outlive (or fall short of) the lifetime they were stored with")
+				}
+			}
+			return true
+		})
+	}
+	c.Check(n >= 1, rule, "cacheEntry.expiresAt writers enumerated", 0, itoa(n)+" store(s)", "no store to cacheEntry.expiresAt found")
 }
